@@ -37,7 +37,7 @@ CHECKS["C10"] = {
     "engine": "bootlink-sim",
     "level": "fault_enumeration",
     "text": "Co-simulation of the real host stack (McuBoot + serial/bulk protocol classes + SerialDevice/UsbDevice) against a reference bootloader device model behind the third-party driver seam (pyserial Serial, libusbsio HID) with a simulated clock: seeded histories of 1..12 API calls with boundary-straddling lengths, seeded multi-fault plans (bit flip, dropped byte, truncated/missing/late response, NAK, ABORT, device error status, aborted data phase; HID missing/abort/short report) and position sweeps that inject every listed fault kind at every device-to-host stream position of short histories. Oracles compare the device-side history with the caller-visible result: exact in the fault-free configuration, 'failure or documented exception, never a wrong success, bounded simulated time' under faults.",
-    "note": "Trusted: the device model in /verif/c10 (written from the protocol definition, validated by the fault-free control configuration), the simulated drivers, the clock seam. CRC-consistent corruption and fault kinds the statement does not name are observed, never judged. A device error status that ends a command cleanly does not close the history: the following calls are judged as fault-free calls. SDP/SDPS run against their own ROM model (sdp_control / sdp_faulty / sdps families; SDPS ROM parameters are read from the database files independently of SPSDK). Aimed families place what sampling may miss: the device refuses exactly the last data packet of a data phase (lastpkt), a call is answered with an error status and others follow (refused), property listings are interleaved with decodes for other families (props). A third of the faulty sessions go on after a link fault without a reopen: later calls are judged for wrong success. One genuine finding is recorded, not repaired: over USB-HID reports left over from a failed exchange answer later calls (known_findings.json). Every run executes in a forked copy of the worker.",
+    "note": "Trusted: the device model in /verif/c10 (written from the protocol definition, validated by the fault-free control configuration), the simulated drivers, the clock seam. CRC-consistent corruption and fault kinds the statement does not name are observed, never judged. A device error status that ends a command cleanly does not close the history: the following calls are judged as fault-free calls. SDP/SDPS run against their own ROM model (sdp_control / sdp_faulty / sdps families; SDPS ROM parameters are read from the database files independently of SPSDK). Aimed families place what sampling may miss: the device refuses exactly the last data packet of a data phase (lastpkt), a call is answered with an error status and others follow (refused), property listings are interleaved with decodes for other families (props), the 19 parameter-only trust-provisioning / WPC / DSC-HSM / EL2GO calls plus ele_message and flash_security_disable are refused in their own response format or in the generic one (tprov). SDP histories include the validating wrappers read_safe / write_safe. A call that reports success although the device answered one of its commands with an error status is a violation whatever data came back (device-error-status-lost). A third of the faulty sessions go on after a link fault without a reopen: later calls are judged for wrong success. One genuine finding is recorded, not repaired: over USB-HID reports left over from a failed exchange answer later calls (known_findings.json). Every run executes in a forked copy of the worker.",
     "technique": "deterministic simulation with fault injection: seeded API histories against a reference device model over a simulated link, fault-position sweeps, history oracles",
     "design_ref": "4.2",
 }
@@ -45,7 +45,7 @@ CHECKS["C10"] = {
 CHECKS["C17"] = {
     "engine": "entropy-history-sim",
     "level": "exploration",
-    "text": "Seeded histories of artifact constructions (SB2.0/2.1 default, partly explicit and explicit parameters; encrypted MBI through the generated class and through load_from_config; OTFAD, IEE, BEE key blobs; HAB DEK and nonce in a durable workspace, also through the complete nxpimage hab export route (HabContainer.load_from_config on a committed example); the legacy BootImgRT class; BEE / IEE through load_from_config incl. empty keys and reused dictionaries; a BD keywrap statement; one MBI object loaded twice; SB2.1 through the BD-file configuration path; helper objects and parsed configurations shared between builds; os.fork workers inside a lifetime) across 1..3 simulated interpreter lifetimes (forked children that import spsdk afresh in a plan-chosen module order). Two builds of one HAB project may be interleaved in one folder (second build runs right after the first closed its key file); the global PRNG is seeded per lifetime from the entropy device and, in 30 % of the histories, by the application with a constant. OS entropy is replaced by an injective counter device and the wall clock by a simulated one that the plan repeats or steps back across restarts, so two equal secrets can only come from reuse in the code (default argument, class-level value, value derived from the clock). Oracle: all self-chosen slots of a history are pairwise distinct and no (key, nonce) pair repeats. Sampling of histories, not proof.",
+    "text": "Seeded histories of artifact constructions (SB2.0/2.1 default, partly explicit and explicit parameters; encrypted MBI through the generated class and through load_from_config; OTFAD, IEE, BEE key blobs; OTFAD through load_from_config with the KEK left to SPSDK; one MBI / OTFAD configuration dictionary used for several builds; HAB DEK and nonce in a durable workspace, also through the complete nxpimage hab export route (HabContainer.load_from_config on a committed example); the legacy BootImgRT class; BEE / IEE through load_from_config incl. empty keys and reused dictionaries; a BD keywrap statement; one MBI object loaded twice; SB2.1 through the BD-file configuration path; helper objects and parsed configurations shared between builds; os.fork workers inside a lifetime) across 1..3 simulated interpreter lifetimes (forked children that import spsdk afresh in a plan-chosen module order). Two builds of one HAB project may be interleaved in one folder (second build runs right after the first closed its key file); the global PRNG is seeded per lifetime from the entropy device and, in 30 % of the histories, by the application with a constant. OS entropy is replaced by an injective counter device and the wall clock by a simulated one that the plan repeats or steps back across restarts, so two equal secrets can only come from reuse in the code (default argument, class-level value, value derived from the clock). Oracle: all self-chosen slots of a history are pairwise distinct and no (key, nonce) pair repeats. Sampling of histories, not proof.",
     "note": "Trusted: the entropy/clock seams at the stdlib boundary (secrets, os.urandom, time, datetime), fork + fresh import as the model of a restart, the slot readers in /verif/c17/epoch.py. OpenSSL's own RNG is not observed.",
     "technique": "deterministic simulation with fault injection: injective entropy device + repeatable clock across simulated restarts, seeded construction histories, pairwise-freshness oracle",
     "design_ref": "4.3",
@@ -54,8 +54,8 @@ CHECKS["C17"] = {
 CHECKS["C11"] = {
     "engine": "register-refinement",
     "level": "exploration",
-    "text": "Seeded operation histories (1..40 register / bit-field / enum writes with boundary values 0, 1, 2^w-1, 2^w, 2^w+1, negative, in int / hex / dec / bin forms; enum names that look like numbers; resets; export->parse into a twin; parse of every prefix of the export; alternative-width group writes; get_config->load_yml_config into a fresh twin; 16 read-only queries; deep copies written independently of the original; exports with a non-zero fill pattern) on generated register layouts (widths 8..512, partitioning bit-fields with hidden gaps, enums, shift-right config processors, grouped registers with normal and reversed sub-register order, reversed byte order on groups, both endiannesses) checked step by step against a bit-vector reference model, with a structural snapshot around every query. This is the history / refinement half of the technique only: the code has no clock, I/O, entropy or thread, so the fault set is empty and the evidence says so. Every run executes in a forked copy of the worker, so state kept in class attributes cannot travel between runs.",
-    "note": "Trusted: the reference model and layout generator in /verif/c11 (layouts follow the real specifications: bit-fields partition the register, 'reversed' on groups only, shifted fields and group sub-registers carry no reset value; alternative widths are not value-predicted).",
+    "text": "Seeded operation histories (1..40 register / bit-field / enum writes with boundary values 0, 1, 2^w-1, 2^w, 2^w+1, negative, in int / hex / dec / bin forms; enum names that look like numbers; resets; export->parse into a twin; parse of every prefix of the export; alternative-width group writes; get_config->load_yml_config into a fresh twin; 16 read-only queries; deep copies written independently of the original; exports with a non-zero fill pattern) on generated register layouts (widths 8..512, partitioning bit-fields with hidden gaps, enums, shift-right config processors, grouped registers with normal and reversed sub-register order, reversed byte order on groups and on plain registers with bit-fields, both endiannesses) checked step by step against a bit-vector reference model, with a structural snapshot around every query. This is the history / refinement half of the technique only: the code has no clock, I/O, entropy or thread, so the fault set is empty and the evidence says so. Every run executes in a forked copy of the worker, so state kept in class attributes cannot travel between runs.",
+    "note": "Trusted: the reference model and layout generator in /verif/c11 (layouts follow the real specifications: bit-fields partition the register, 'reversed' in specifications on groups only - plain registers get the flag on the object, as a programmatic construction does, and raw bit-field writes are not generated for them, shifted fields and group sub-registers carry no reset value; alternative widths are not value-predicted).",
     "technique": "deterministic seeded history search with step-by-step refinement against an executable reference model (simulation family, empty fault set), shrinking and replay",
     "design_ref": "4.4",
 }
@@ -63,7 +63,7 @@ CHECKS["C11"] = {
 CHECKS["C05"] = {
     "engine": "bootlink-sim",
     "level": "exploration",
-    "text": "Provisioning sessions and export histories on one SecureBinary31 object (built through the Python API or, for 30 % of the runs, through SecureBinary31.load_from_config with inline / YAML / binary certificate-block configurations; a third of the history runs build another container in the same process first; the signing service may be unreachable for the first requests and the caller retries): seeded key sets (P-256/P-384, 1..4 roots, with/without ISK incl. mixed curves and user data), PCK 128/256, access rights 0..3, encrypted/plain, header fields incl. the clock-derived default timestamp; operations add_command (14 command types, data lengths chosen to end the stream at every offset mod 256) / export / export again / flip one stored bit / deliver over the simulated UART or HID link with link faults. Every export goes through an independent ROM-loader model (RoT key hash, ISK chain, container signature, hash chain, CMAC-KDF block keys, AES-CBC, section header, command walker) that must accept it and decode exactly the supplied command list and header fields; any flipped bit must be rejected; a delivery that reports success must have made the device execute exactly that command list. The fault-free single-export runs are, candidly, generated inputs against a reference model (reported as control_runs); history_runs and faulted_runs are what the simulation adds.",
+    "text": "Provisioning sessions and export histories on one SecureBinary31 object (built through the Python API or, for 30 % of the runs, through SecureBinary31.load_from_config with inline / YAML / binary certificate-block configurations; a third of the history runs build another container in the same process first; the signing service may be unreachable for the first requests and the caller retries): seeded key sets (P-256/P-384, 1..4 roots, with/without ISK incl. mixed curves and user data), PCK 128/256, access rights 0..3, encrypted/plain, header fields incl. the clock-derived default timestamp; operations add_command / in-place edits of the public command list / insert_command / set_commands (14 command types, data lengths chosen to end the stream at every offset mod 256) / export / export again / flip one stored bit / deliver over the simulated UART or HID link with link faults. Every export goes through an independent ROM-loader model (RoT key hash, ISK chain, container signature, hash chain, CMAC-KDF block keys, AES-CBC, section header, command walker) that must accept it and decode exactly the supplied command list and header fields; any flipped bit must be rejected; a delivery that reports success must have made the device execute exactly that command list. The fault-free single-export runs are, candidly, generated inputs against a reference model (reported as control_runs); history_runs and faulted_runs are what the simulation adds.",
     "note": "Trusted: the ROM-loader model c05/rom31.py (validated at start-up on reference containers under golden/sb31, incl. rejection of corrupted copies; a failure there is exit 2), the C10 link/device models, the clock seam. ECDSA signature bytes are nondeterministic and masked out of digests.",
     "technique": "deterministic simulation with fault injection: build -> storage fault -> simulated link -> independent ROM-loader model; seeded export histories, bit-flip and link-fault injection",
     "design_ref": "4.5",
@@ -73,7 +73,7 @@ CHECKS["C04"] = {
     "engine": "bootlink-sim",
     "level": "exploration",
     "text": "SB2.0 (unsigned / signed) and SB2.1 images built through the Python API and, for a quarter of the SB2.1 images, through a generated BD command file or its YAML form (parse_sb21_config -> load_from_config, as nxpimage sb21 export does), with object histories before the judged export (str / update / earlier exports; sections edited after they were put together; equal sections; aliased load buffers; other time zones; another image built first in the same folder) (1..4 sections with arbitrary ids and HMAC-table sizes, all 13 command types with boundary values and load data of every length mod 16, versions, build number, SHA flag, explicit or self-chosen DEK/MAC/nonce/timestamp incl. a counter word next to wrap-around, aware and naive timestamps, RSA-2048/4096 roots, 1..4 root keys in arbitrary RKH slots with the device RKTH computed from what was supplied) are given to two consumers: an independent ROM-loader model (RFC 3394 unwrap, header HMAC for 2.0/2.1, certificate block / RKH table / RSA signature, per-section encrypted header and HMAC table, AES-CTR with the nonce-derived counter measured from file start, command checksums, LOAD CRC) and SPSDK's own parse(). Fault-free: both must yield exactly what was given, and the header fields the supplied values. Storage faults between writer and consumers (bit flip biased to structure boundaries, two-bit CTR malleation that keeps a command header checksum valid, truncation at arbitrary lengths and exactly at section boundaries, wrong KEK, torn replacement) and deliveries through the real McuBoot.receive_sb_file over the simulated link with link faults: each consumer raises or returns equal content, never different content; a delivery that reports success made the device process exactly that content. The fault-free half is, candidly, generated inputs against a reference model (control_runs); the fault half is what the simulation adds.",
-    "note": "Trusted: the ROM-loader model c04/rom2.py (validated at start-up on 12 elftosb-made files under golden/sb2, incl. rejection of corrupted copies and of a wrong KEK; a failure there is exit 2), the C10 link/device models, the clock seam. Two genuine deviations are recorded, not repaired: LOAD lengths are padded to 16, and 4-byte binary blobs of BD load statements are written byte-reversed (known_findings.json).",
+    "note": "Trusted: the ROM-loader model c04/rom2.py (validated at start-up on 12 elftosb-made files under golden/sb2, incl. rejection of corrupted copies and of a wrong KEK; a failure there is exit 2), the C10 link/device models, the clock seam. The header content and the certificate block (root key table hash, certificates) SPSDK's parser returns are judged too, fault-free and under storage faults. Two genuine deviations are recorded, not repaired: LOAD lengths are padded to 16, and 4-byte binary blobs of BD load statements are written byte-reversed (known_findings.json).",
     "technique": "deterministic simulation with fault injection: build -> storage fault -> simulated link -> independent ROM-loader model and SPSDK parser; seeded images, bit-flip / truncation / wrong-key / torn-write and link-fault injection",
     "design_ref": "4.6",
 }
